@@ -444,6 +444,17 @@ def toBytes (len v : Nat) : List Nat := beBytes len v
 def fromWideBytes (q wide : Nat) (bs : List Nat) : Option Nat :=
   if wide < bs.length then none else some (beNat bs % q)
 
+/-- `SetBytesWide` of the fiat-crypto fields (`k256/impl/fq.gen.go` and its siblings), called by
+`FromWideBytes` on the reversed input: the little-endian string is zero-padded to `2·size` bytes and
+split into `d0 ‖ d1`; the result is `d0 + d1·R` with `R = 256^size` (one resp. two `ToMontgomery`
+conversions), computed in the field -/
+def fromWideSplit (q size : Nat) (bs : List Nat) : Option Nat :=
+  if 2 * size < bs.length then none else
+  let le := bs.reverse ++ List.replicate (2 * size - bs.length) 0
+  let d0 := leNat (le.take size)
+  let d1 := leNat (le.drop size)
+  some ((d0 % q + d1 % q * (256 ^ size % q)) % q)
+
 end Scalar
 
 /-! ## GT: twelve base-field components, each reduced -/
